@@ -65,8 +65,11 @@ func main() {
 	compactHeavy := fl.Bool("compactheavy", false, "fill several segments with live and dead records, then compact (promotions overflow the current segment)")
 	oneClass := fl.Bool("oneclass", false, "seq: all keys share one low-bit class (very long bucket chains)")
 	failOpen := fl.Bool("failopen", false, "a failing Open attempt (injected fs error) before some images are reopened")
+	failClose := fl.Bool("failclose", false, "fault: some Close calls fail with an injected file-system error; the process exits and the directory is opened again")
 	noPin := fl.Bool("nopin", false, "seq: every second program runs with pogreb's own random hash seeds")
+	slowFS := fl.Bool("slowfs", false, "stress: reads of segment and index files yield / sleep briefly before touching the file (widens unlocked windows of readers)")
 	holdBG := fl.Bool("holdbg", false, "stress: park the background compaction at its first yield point and call Close meanwhile")
+	tearSeq := fl.Bool("tear", false, "seq: simulated unclean shutdowns (garbage appended to / bytes cut off the newest segment) and recovery")
 	walStates := fl.Bool("walstates", false, "strict mode: log the projected state of the write-ahead log after every call (spec/TraceWal.tla)")
 	in := fl.String("in", "", "program file (ndjson) to replay instead of random programs")
 	fl.Parse(os.Args[2:])
@@ -111,7 +114,7 @@ func main() {
 				rs = *rseed
 			}
 			r := h.NewRunner(rec, p, h.RunParams{Mode: *mode, Seed: rs, Depth: *depth, Twice: *twice, PLimit: *plimit, OnlyClosed: *onlyClosed,
-				Probe: *probe, FullEvery: 40, FailOpen: *failOpen})
+				Probe: *probe, FullEvery: 40, FailOpen: *failOpen, FailClose: *failClose})
 			if *mode == "seq" {
 				defer r.CloseAndDecode()
 			}
@@ -126,6 +129,7 @@ func main() {
 			tot["nested_instants"] += r.Nested
 			tot["epochs"] += r.Epochs
 			tot["failed_opens"] += r.FailedOpens
+			tot["failed_closes"] += r.FailedCloses
 			tot["ops"] += r.Ops
 			tot["programs"]++
 			if i < 2 {
@@ -177,7 +181,7 @@ func main() {
 			}
 			p := h.GenProgram(rng, fmt.Sprintf("seq-%s-%d-%d", *fsname, *seed, i), cfg, h.GenOpts{Fresh: freshPool, Sessions: *sessions,
 				Keys: keys, Ops: *nops, BigVals: rng.Intn(3) == 0, Compact: true, Reopen: true, Sync: true, Reads: true, Close: false, Churn: true,
-				Inject: *inject, Backup: *backup, Scans: *scans, MoreReopen: *alt, Open2: *open2, AfterCompact: *afterCompact})
+				Inject: *inject, Backup: *backup, Scans: *scans, MoreReopen: *alt, Open2: *open2, AfterCompact: *afterCompact, Tear: *tearSeq})
 			if *afterCompact && i%3 == 2 {
 				cfg.MinFrag = 0.0001
 				p = h.EmptyingProgram(rng, p.ID+"-empty", cfg, keys)
@@ -250,6 +254,9 @@ func main() {
 				o.Dir = "db"
 			} else {
 				o.Root = h.RootFS(*fsname)
+			}
+			if *slowFS {
+				o.Root = h.SlowFS(o.Root, *seed*31+int64(i))
 			}
 			r := h.Stress(rec, o)
 			tot["histories"]++
